@@ -855,10 +855,10 @@ func init() {
 				}
 				if err != nil || !found {
 					e := errb.String()
-					if len(e) > 600 {
-						e = e[:600]
+					if len(e) > 2500 {
+						e = e[:2500]
 					}
-					r.err = fmt.Sprintf("worker %s shard %d failed: %v %s", hs[j.hi].name, tk.k, err, e)
+					r.err = fmt.Sprintf("worker %s cache=%d fast=%v cold=%v bound=%d shard %d failed: %v %s", hs[j.hi].name, cfgs[j.ci].Cache, cfgs[j.ci].Fast, cfgs[j.ci].Cold, tk.b, tk.k, err, strings.ReplaceAll(e, "\n", " | "))
 				}
 				results <- r
 			}()
